@@ -293,6 +293,23 @@ fn chunks_typed<F: WF, W: WindowFn<f64, Output = f64> + Clone>(c: &ChunkCase, ha
     let w: Windower<F, W> = Windower::new(&frames[..], c.bin, c.hop);
     let stepped = w.step_by(2).take(expected + 3).count();
     ensure!(stepped == (expected + 1) / 2, "step_by(2) yields {} chunks, expected {} of {}", stepped, (expected + 1) / 2, expected);
+    // consuming the windower by value: count() and last() called on the windower itself (not through an adaptor) see the same schedule
+    let w: Windower<F, W> = Windower::new(&frames[..], c.bin, c.hop);
+    let n = w.count();
+    ensure!(n == expected, "count() = {}, expected {} chunks (L = {}, bin = {}, hop = {})", n, expected, c.l, c.bin, c.hop);
+    let w: Windower<F, W> = Windower::new(&frames[..], c.bin, c.hop);
+    let last = w.last();
+    if expected == 0 {
+        ensure!(last.is_none(), "last() yields a chunk although none exist (L = {}, bin = {}, hop = {})", c.l, c.bin, c.hop);
+    } else {
+        ensure!(last.is_some(), "last() yields no chunk although {} exist", expected);
+        first_frame_ok(last, expected - 1, "last()")?;
+    }
+    let mut w: Windower<F, W> = Windower::new(&frames[..], c.bin, c.hop);
+    if expected > 1 {
+        let _ = w.next();
+        first_frame_ok(w.last(), expected - 1, "next() then last()")?;
+    }
     Ok(())
 }
 
